@@ -49,6 +49,9 @@ pub struct Cfg {
     pub stall: bool,
     /// network partition: every frame of some hosts is lost for a while
     pub partition: bool,
+    /// one large datagram cut into thousands of 8..24 byte fragments that
+    /// arrive shuffled: hundreds of simultaneous sections
+    pub confetti: bool,
 }
 
 pub fn gen_cfg(mode: &str, c: &mut Rng) -> Cfg {
@@ -95,7 +98,17 @@ pub fn gen_cfg(mode: &str, c: &mut Rng) -> Cfg {
         heal: faulty,
         stall: on(c) && c.chance(1, 2),
         partition: on(c) && c.chance(1, 2),
+        confetti: !tiny && mode != "bulk" && c.chance(1, 120),
     };
+    if cfg.confetti {
+        cfg.hosts = 1;
+        cfg.datagrams_per_host = 1;
+        cfg.burst_reorder = true;
+        cfg.p_dup = 0.0;
+        cfg.p_retransmit = 0.0;
+        cfg.p_byz = 0.0;
+        cfg.background = 0.0;
+    }
     if mode == "bulk" {
         cfg.evict = true;
         // multi-victim retain fills the free lists in HashMap order, so the
@@ -269,7 +282,14 @@ fn gen_host(i: usize, w: &mut Rng, twin_of: Option<&HostCfg>, twin_dim: u64) -> 
         if pre.len() < 2 && w.chance(1, 3) {
             pre.push(PreExt { kind: 43, units: w.below(3) as u8 });
         }
+        if w.chance(1, 12) {
+            // an atomic fragment header in front of the fragmenting one: the
+            // pool looks at the first fragment header only, so these packets
+            // are not fragments for it
+            pre.push(PreExt { kind: 44, units: 0 });
+        }
     }
+    let v6_zero_len = v6 && w.chance(1, 10);
     HostCfg {
         link,
         vlans,
@@ -280,6 +300,7 @@ fn gen_host(i: usize, w: &mut Rng, twin_of: Option<&HostCfg>, twin_dim: u64) -> 
         macsec,
         v4_opt_words: if w.chance(1, 4) { w.range(1, 10) as u8 } else { 0 },
         v6_pre: pre,
+        v6_zero_len,
     }
 }
 
@@ -407,7 +428,9 @@ impl World {
         for h in 0..self.hosts.len() {
             let mut next_id: u32 = self.wl.u32();
             for n in 0..self.cfg.datagrams_per_host {
-                let len = if self.wl.below(1000) < self.cfg.big_payload_permille {
+                let len = if self.cfg.confetti {
+                    self.wl.usize_range(9_000, 40_000)
+                } else if self.wl.below(1000) < self.cfg.big_payload_permille {
                     // up to the largest datagram the 13-bit offset + 16-bit length allow
                     *self.wl.pick(&[65_535usize, 65_535, 65_534, 65_528, 65_529, 65_515, 65_000, 40_000, 20_000])
                 } else {
@@ -498,11 +521,12 @@ impl World {
     /// corrupt / truncate / pad decisions, then Arrive events.
     fn transmit(&mut self, host: usize, f: &Frag, clean_truth: bool, faults_on: bool, stats: &mut Stats) {
         let h = self.hosts[host].clone();
-        let pad = if self.net.prob(self.cfg.p_pad) && h.link != Link::BareIp { self.net.usize_range(1, 40) } else { 0 };
+        let pad = if self.net.prob(self.cfg.p_pad) && h.link != Link::BareIp && !(h.v6 && h.v6_zero_len) { self.net.usize_range(1, 40) } else { 0 };
+        let atomic_first = h.v6 && h.v6_pre.iter().any(|e| e.kind == 44);
         let ttl = 64;
         let (frame, payload_at) = encode_fragment(&h, f, pad, ttl);
         // offset 0 without the more-fragments flag is not a fragment at all
-        let truth = if clean_truth && (f.off8 != 0 || f.more) {
+        let truth = if clean_truth && (f.off8 != 0 || f.more) && !atomic_first {
             Some(Truth {
                 key: key_of(&h, f.id, f.proto),
                 off8: f.off8,
@@ -579,7 +603,20 @@ impl World {
             }
         }
         let max_frag = 65_535 - (ip_header_len(&self.hosts[d.host]) - if self.hosts[d.host].v6 { 40 } else { 0 });
-        let frags = cut(d.payload.len(), self.cfg.max_frags, max_frag, &mut self.wl);
+        let frags = if self.cfg.confetti {
+            let mut v = Vec::new();
+            let mut at = 0;
+            let len = d.payload.len();
+            while at < len {
+                let l = (8 * self.wl.usize_range(1, 3)).min(len - at);
+                v.push((at, l, at + l < len));
+                at += l;
+            }
+            stats.add("probe.confetti_fragments", v.len() as u64);
+            v
+        } else {
+            cut(d.payload.len(), self.cfg.max_frags, max_frag, &mut self.wl)
+        };
         let mut list: Vec<Frag> = frags
             .iter()
             .map(|(o, l, m)| Frag {
@@ -716,7 +753,7 @@ impl World {
         let mut events = 0usize;
         while let Some(Reverse(item)) = self.q.pop() {
             events += 1;
-            if events > MAX_EVENTS {
+            if events > if self.cfg.confetti { 8 * MAX_EVENTS } else { MAX_EVENTS } {
                 stats.inc("netsim.event_cap_hit");
                 break;
             }
@@ -883,6 +920,19 @@ impl World {
                     }
                 }
                 Ev::Heal => {
+                    // the heal point lies behind everything the faulty phase
+                    // still has in flight (long transmissions, stalls)
+                    let pending = self
+                        .q
+                        .iter()
+                        .filter(|Reverse(i)| matches!(i.ev, Ev::Arrive { .. } | Ev::SendDatagram(_)))
+                        .map(|Reverse(i)| i.at)
+                        .max();
+                    if let Some(last) = pending {
+                        let at = last.max(self.now) + 1;
+                        self.push(at, Ev::Heal);
+                        continue;
+                    }
                     // all faults stop; streams are dropped and every datagram
                     // that has not been returned yet is sent once more
                     self.healed = true;
@@ -916,6 +966,12 @@ impl World {
         let mut missing = Vec::new();
         for (i, d) in self.datagrams.iter().enumerate() {
             if d.payload.len() <= 8 {
+                continue;
+            }
+            let hc = &self.hosts[d.host];
+            if hc.v6 && hc.v6_pre.iter().any(|e| e.kind == 44) {
+                // not fragments for the pool (atomic fragment header first)
+                stats.inc("netsim.datagrams_behind_atomic_fragment_header");
                 continue;
             }
             if self.completions[i] == 0 {
@@ -992,6 +1048,11 @@ pub fn tally(stats: &mut Stats, i: &StepInfo) {
             }
             if i.completed.is_some() {
                 stats.inc("netsim.completions");
+                stats.inc(if i.len_source_as_ip_version {
+                    "netsim.completions_len_source_names_ip_length_field"
+                } else {
+                    "netsim.completions_len_source_other"
+                });
                 if i.completed_by_non_last {
                     stats.inc("probe.completed_by_non_last_fragment");
                 }
